@@ -223,6 +223,9 @@ func ruleC05(w *World, r *Report) {
 	// so that abortSession sees (and gives back) what earlier iterations acquired (C01 R01.J1 re-filed)
 	r.withRule("R05.14", func() { ruleC01Secondary(w, r) })
 	ruleBessWorkersReportTrue(w, r, "R05.15")
+	r.withRule("R05.17", func() { ruleC06SeidEntropy(w, r) })
+	ruleCounterAlwaysReleased(w, r, "C05", "R05.19")
+	r.withRule("R05.18", func() { ruleC06Release(w, r) })
 	// R05.16: the terminations entry of a deleted PDR is addressed under the application ID of its filter (C04 R04.12)
 	ruleC04AppIDPerPDR(w, r, "C05", "R05.16")
 	// R05.9: the UP4 deletion gets through for a session with several PDRs of one direction
